@@ -590,6 +590,7 @@ func (m *Machine) intrinsic(name string, fn *ssa.Function, args []Value) (Value,
 		var v Value = &Opaque{tag: "error:" + describeStr(args[0]), id: m.opaqueSeq}
 		return Iface{t: errorPtrType(fn), v: v}, true
 	case "fmt.Sprintf", "fmt.Sprint", "fmt.Sprintln":
+		m.fmtRenderErrors(args)
 		return strLit("<" + name + ">"), true
 	case "log.Printf", "log.Println", "log.Print", "(*log.Logger).Printf", "(*log.Logger).Println", "(*log.Logger).Print",
 		"fmt.Printf", "fmt.Println", "fmt.Print", "log.SetFlags", "log.SetOutput":
